@@ -242,6 +242,122 @@ pub fn replays_with_reductions_under_real_lookahead(b: &Built, st: &StateTable<u
     go(b, st, toks, cfg, pos, seq, 0, &mut failed)
 }
 
+/// Is the absence of the valid minimum-cost sequence `m` explained by the known search/replay
+/// divergence? The search merges nodes with equal (stack, input position) and compatible tails and
+/// later ranks the whole merged group by plainly replaying its FIRST member. If a sequence that only
+/// works under the search's semantics (a reduction under the real lookahead followed by an insert or
+/// delete) reaches, at the same cost, the configuration `m` reaches (directly or after up to two common
+/// shifts), and that sequence does not repair under plain replay, then the group, `m` included, is
+/// dropped. Returns Some(true) if such a sequence exists, Some(false) if the bounded enumeration found
+/// none, None if the node cap was hit first.
+pub fn merged_with_search_only_sequence(b: &Built, st: &StateTable<u32>, toks: &[TIdx<u32>], cfg: &Cfg, pos: usize, cost: &dyn Fn(TIdx<u32>) -> u8, m: &[Rep], node_cap: usize) -> Option<bool> {
+    let grm = &b.grm;
+    let eof = grm.eof_token_idx();
+    let ntok = usize::from(grm.tokens_len());
+    let target = seq_cost(b, toks, cost, m);
+    // m's configurations after 0, 1, 2 common shifts
+    let Ok((mp, mc)) = replay_seq(b, st, toks, cfg, pos, m) else { return Some(false) };
+    let m_del = matches!(m.last(), Some(Rep::Delete(_)));
+    let mut chain: Vec<(Vec<StIdx<u32>>, usize)> = vec![(mc.stack.clone(), mp)];
+    {
+        let (mut c, mut p) = (mc.clone(), mp);
+        for _ in 0..2 {
+            if p < toks.len() && c.feed(grm, st, toks[p]) == Step::Shifted {
+                p += 1;
+                chain.push((c.stack.clone(), p));
+            } else {
+                break;
+            }
+        }
+    }
+    struct N {
+        cfg: Cfg,
+        p: usize,
+        seq: Vec<Rep>,
+        cost: u32,
+        /// the stack was reduced under the real lookahead since the last shift
+        reduced: bool,
+        /// ... and an insert or delete followed such a reduction somewhere on the path
+        taint: bool,
+        trailing_shifts: usize,
+    }
+    let mut work = vec![N { cfg: cfg.clone(), p: pos, seq: vec![], cost: 0, reduced: false, taint: false, trailing_shifts: 0 }];
+    let mut nodes = 0usize;
+    let mut seen: HashSet<(Vec<StIdx<u32>>, usize, Vec<Rep>, bool)> = HashSet::new();
+    while let Some(nd) = work.pop() {
+        nodes += 1;
+        if nodes > node_cap {
+            return None;
+        }
+        if !seen.insert((nd.cfg.stack.clone(), nd.p, nd.seq.clone(), nd.reduced)) {
+            continue;
+        }
+        if nd.taint && nd.cost == target && nd.trailing_shifts < chain.len() {
+            let (ref ms, mp2) = chain[nd.trailing_shifts];
+            let base_len = nd.seq.len() - nd.trailing_shifts;
+            let q_del = base_len > 0 && matches!(nd.seq[base_len - 1], Rep::Delete(_));
+            if *ms == nd.cfg.stack && mp2 == nd.p && (nd.trailing_shifts > 0 || q_del == m_del) && nd.seq[..base_len] != *m {
+                // does the tainted sequence repair under plain replay?
+                let plain_ok = match replay_seq(b, st, toks, cfg, pos, &nd.seq[..base_len]) {
+                    Ok((p2, c2)) => {
+                        let (sh, acc) = continue_plain(b, st, toks, &c2, p2, parse_at_least());
+                        acc || sh >= parse_at_least()
+                    }
+                    Err(_) => false,
+                };
+                if !plain_ok {
+                    return Some(true);
+                }
+            }
+        }
+        if nd.trailing_shifts >= parse_at_least() {
+            continue; // a success node of the search: not expanded
+        }
+        let la = if nd.p < toks.len() { toks[nd.p] } else { eof };
+        // the search's reduce-only move
+        {
+            let mut c2 = nd.cfg.clone();
+            if c2.feed(grm, st, la) == Step::Error && c2.stack != nd.cfg.stack {
+                work.push(N { cfg: c2, p: nd.p, seq: nd.seq.clone(), cost: nd.cost, reduced: true, taint: nd.taint, trailing_shifts: nd.trailing_shifts });
+            }
+        }
+        let last_delete = matches!(nd.seq.last(), Some(Rep::Delete(_)));
+        if !last_delete {
+            for t in 0..ntok {
+                let t = TIdx(t as u32);
+                if t == eof {
+                    continue;
+                }
+                let nc = nd.cost + cost(t) as u32;
+                if nc > target {
+                    continue;
+                }
+                let mut c2 = nd.cfg.clone();
+                if c2.feed(grm, st, t) == Step::Shifted {
+                    let mut seq = nd.seq.clone();
+                    seq.push(Rep::Insert(u32::from(t)));
+                    work.push(N { cfg: c2, p: nd.p, seq, cost: nc, reduced: nd.reduced, taint: nd.taint || nd.reduced, trailing_shifts: 0 });
+                }
+            }
+        }
+        if nd.p < toks.len() {
+            let nc = nd.cost + cost(toks[nd.p]) as u32;
+            if nc <= target {
+                let mut seq = nd.seq.clone();
+                seq.push(Rep::Delete(nd.p));
+                work.push(N { cfg: nd.cfg.clone(), p: nd.p + 1, seq, cost: nc, reduced: nd.reduced, taint: nd.taint || nd.reduced, trailing_shifts: 0 });
+            }
+            let mut c2 = nd.cfg.clone();
+            if c2.feed(grm, st, toks[nd.p]) == Step::Shifted {
+                let mut seq = nd.seq.clone();
+                seq.push(Rep::Shift(nd.p));
+                work.push(N { cfg: c2, p: nd.p + 1, seq, cost: nd.cost, reduced: false, taint: nd.taint, trailing_shifts: nd.trailing_shifts + 1 });
+            }
+        }
+    }
+    Some(false)
+}
+
 pub struct ReplayStats {
     pub errors: u64,
     pub sequences_validated: u64,
